@@ -104,7 +104,7 @@ theorem emitScript_frame (hs : Mono R.s) {tl' tl : List String} {s' s : Script} 
   revert h hl
   generalize scriptChunks s'.body = y'
   generalize scriptChunks s.body = y
-  intro h hl
+  intro hl h
   cases y' <;> cases y <;> simp only [RelEx] at h ⊢
   · rw [h]
   · rw [hname, hscope]
@@ -112,5 +112,136 @@ theorem emitScript_frame (hs : Mono R.s) {tl' tl : List String} {s' s : Script} 
     intro c hc n hn
     exact hl n.1 (List.mem_flatMap.2 ⟨c, hc, List.mem_map.2 ⟨n, hn, rfl⟩⟩)
 end
+
+/-! ### the output as blocks -/
+
+/-- The lines of each rendered top-level statement (text statements are rendered in the text section). -/
+def topBlocks (o : Opts) (ps : List ((Nat × Nat) × String)) (tl : List String) :
+    List Top → Except EFail (List (List Line))
+  | [] => .ok []
+  | t :: r =>
+    match C17.emitTopLines o ps tl t with
+    | none => topBlocks o ps tl r
+    | some (.error e) => .error e
+    | some (.ok ls) =>
+      match topBlocks o ps tl r with
+      | .error e => .error e
+      | .ok bs => .ok (ls :: bs)
+
+/-- Blocks joined by single blank lines; `i` = number of blocks written before. -/
+def joinFrom (i : Nat) : List (List Line) → List Line
+  | [] => []
+  | b :: r => (if i > 0 then [Line.blank] else []) ++ b ++ joinFrom (i + 1) r
+
+theorem joinFrom_append : ∀ (a b : List (List Line)) (i : Nat),
+    joinFrom i (a ++ b) = joinFrom i a ++ joinFrom (i + a.length) b
+  | [], b, i => by simp [joinFrom]
+  | x :: r, b, i => by
+    simp only [List.cons_append, joinFrom, joinFrom_append r b (i + 1), List.length_cons, List.append_assoc]
+    have : i + 1 + r.length = i + (r.length + 1) := by omega
+    rw [this]
+
+theorem textsBlock_join (o : Opts) : ∀ (texts : List Text) (i : Nat),
+    C06b.textsBlock o i texts = joinFrom i (texts.map (emitText o))
+  | [], _ => rfl
+  | t :: r, i => by simp only [C06b.textsBlock, List.map_cons, joinFrom, textsBlock_join o r (i + 1)]
+
+theorem emitTops_blocks (o : Opts) (ps : List ((Nat × Nat) × String)) (tl : List String) :
+    ∀ (tops : List Top) (i : Nat),
+      emitTops o ps tl tops i =
+        match topBlocks o ps tl tops with
+        | .error e => .error e
+        | .ok bs => .ok (joinFrom i bs, i + bs.length)
+  | [], i => by simp [emitTops, topBlocks, joinFrom]
+  | t :: r, i => by
+    cases h : C17.emitTopLines o ps tl t with
+    | none =>
+      have : ∃ x, t = .text x := by cases t <;> simp [C17.emitTopLines] at h; exact ⟨_, rfl⟩
+      obtain ⟨x, rfl⟩ := this
+      rw [C17.emitTops_text, emitTops_blocks o ps tl r i]
+      simp only [topBlocks, h]
+    | some e =>
+      rw [C17.emitTops_cons o ps tl t r i e h, emitTops_blocks o ps tl r (i + 1)]
+      simp only [topBlocks, h]
+      cases e with
+      | error err => rfl
+      | ok ls =>
+        simp only [C17.combine]
+        cases topBlocks o ps tl r with
+        | error err => rfl
+        | ok bs =>
+          simp only [joinFrom, List.length_cons, Except.ok.injEq, Prod.mk.injEq, true_and]
+          omega
+
+/-- **`emitProgram` as blocks**: one block per rendered top-level statement, then one per text, joined by
+single blank lines. -/
+theorem emitProgram_blocks (o : Opts) (p : Program) :
+    emitProgram o p =
+      match topBlocks o p.patches (p.texts.map (·.name)) p.tops with
+      | .error e => .error e
+      | .ok bs => .ok (joinFrom 0 (bs ++ p.texts.map (emitText o))) := by
+  unfold emitProgram
+  simp only [emitTops_blocks, C06b.textsBlock_eq]
+  cases topBlocks o p.patches (p.texts.map (·.name)) p.tops with
+  | error e => rfl
+  | ok bs => simp [joinFrom_append, textsBlock_join]
+
+theorem topBlocks_append (o : Opts) (ps : List ((Nat × Nat) × String)) (tl : List String) :
+    ∀ (a b : List Top),
+      topBlocks o ps tl (a ++ b) =
+        match topBlocks o ps tl a with
+        | .error e => .error e
+        | .ok x =>
+          match topBlocks o ps tl b with
+          | .error e => .error e
+          | .ok y => .ok (x ++ y)
+  | [], b => by
+    simp only [List.nil_append, topBlocks]
+    cases topBlocks o ps tl b <;> rfl
+  | t :: r, b => by
+    simp only [List.cons_append, topBlocks, topBlocks_append o ps tl r b]
+    cases C17.emitTopLines o ps tl t with
+    | none => rfl
+    | some e =>
+      cases e with
+      | error err => rfl
+      | ok ls =>
+        simp only
+        cases topBlocks o ps tl r with
+        | error err => rfl
+        | ok x =>
+          simp only
+          cases topBlocks o ps tl b <;> rfl
+
+/-- Statement by statement the same lines ⟹ the same blocks. -/
+theorem topBlocks_congr (o : Opts) {ps' ps : List ((Nat × Nat) × String)} {tl' tl : List String} :
+    ∀ {tops' tops : List Top},
+      All2 (fun t' t => C17.emitTopLines o ps' tl' t' = C17.emitTopLines o ps tl t) tops' tops →
+      topBlocks o ps' tl' tops' = topBlocks o ps tl tops
+  | [], [], _ => rfl
+  | _ :: _, _ :: _, h => by simp only [topBlocks, h.1, topBlocks_congr o h.2]
+  | [], _ :: _, h => h.elim
+  | _ :: _, [], h => h.elim
+
+theorem topBlocks_movements (o : Opts) (ps : List ((Nat × Nat) × String)) (tl : List String) :
+    ∀ (ms : List MovementStmt), topBlocks o ps tl (ms.map Top.movement) = .ok (ms.map (emitMovement o))
+  | [] => rfl
+  | m :: r => by simp only [List.map_cons, topBlocks, C17.emitTopLines, topBlocks_movements o ps tl r]
+
+/-! ### patches that do not address a command -/
+
+theorem patchedArgs_append_left (X Z : List ((Nat × Nat) × String)) (c : Cmd) (h : ∀ p ∈ X, p.1.1 ≠ c.id) :
+    patchedArgs (X ++ Z) c = patchedArgs Z c := by
+  have hf : X.filter (fun p => p.1.1 == c.id) = [] :=
+    List.filter_eq_nil_iff.2 (fun p hp => by simpa using h p hp)
+  unfold patchedArgs
+  simp only [List.filter_append, hf, List.nil_append]
+
+theorem patchedArgs_append_right (Z X : List ((Nat × Nat) × String)) (c : Cmd) (h : ∀ p ∈ X, p.1.1 ≠ c.id) :
+    patchedArgs (Z ++ X) c = patchedArgs Z c := by
+  have hf : X.filter (fun p => p.1.1 == c.id) = [] :=
+    List.filter_eq_nil_iff.2 (fun p hp => by simpa using h p hp)
+  unfold patchedArgs
+  simp only [List.filter_append, hf, List.append_nil]
 
 end Pory.P2
